@@ -415,7 +415,7 @@ func c18Openers() []c18Case {
 			tx(3, f("0", "5", "1", "1000", "2", "7"), ex(8), c18Msg{K: "exec", C: 9, Good: true, Nested: 9}, ex(8)),
 			tx(3, f("2", "100"), ex(10)), // blocked withdrawer: whole tx rejected
 			tx(4, f("2", "100"), c18Msg{K: "upd", C: 10, W: 0}),
-			tx(3, f("2", "100"), ex(10)), // the fee collector itself as withdrawer: blocked as well
+			tx(3, f("2", "100"), ex(10)),                                // the fee collector itself as withdrawer: blocked as well
 			{Op: "params", Enabled: true, Share: "2000000000000000000"}, // refused: share stays 1/3
 			tx(3, f("0", "50", "2", "70"), ex(8), ex(8)),
 			{Op: "params", Enabled: false, Share: "333333333333333333"},
